@@ -10,6 +10,9 @@ import (
 	"fmt"
 	"github.com/decred/dcrd/dcrec/secp256k1/v4/ecdsa"
 	"github.com/obolnetwork/charon/zzverif/fakebn"
+	"github.com/obolnetwork/charon/zzverif/memnet"
+	"github.com/libp2p/go-libp2p/core/peer"
+	"github.com/obolnetwork/charon/p2p"
 	"sort"
 	"strings"
 	"sync"
@@ -93,17 +96,56 @@ func firstGatedSlot() uint64 {
 	return (100/gaterBN.SPE + 3) * gaterBN.SPE
 }
 
+var peersCache = map[int][]p2p.Peer{}
+
+func peersFor(n int) []p2p.Peer {
+	if ps, ok := peersCache[n]; ok {
+		return ps
+	}
+	var ps []p2p.Peer
+	for i, k := range keysFor(n) {
+		id, err := p2p.PeerIDFromKey(k.PubKey())
+		if err != nil {
+			panic("HARNESS-ERROR: peer id: " + err.Error())
+		}
+		ps = append(ps, p2p.Peer{ID: id, Index: i, Name: fmt.Sprintf("node%d", i)})
+	}
+	peersCache[n] = ps
+	return ps
+}
+
+// newConsensusForHandle builds member 0's component with the production constructor (it is never started: only its
+// receive handler is called), so that everything the handler may consult (peers, keys, gater, deadliner) is set
+// as in production.
 func newConsensusForHandle(n int) (*Consensus, *fakeDeadliner) {
 	dl := &fakeDeadliner{expired: map[core.Duty]bool{}, ch: make(chan core.Duty)}
-	c := &Consensus{}
-	c.pubkeys = map[int64]*k1.PublicKey{}
-	for i, k := range keysFor(n) {
-		c.pubkeys[int64(i)] = k.PubKey()
+	gater := productionGater()
+	peers := peersFor(n)
+	c, err := NewConsensus(context.Background(), gaterBN, memnet.New().Host(peers[0].ID), new(p2p.Sender), peers, keysFor(n)[0], dl, gater, func(*pbv1.SniffedConsensusInstance) {}, false)
+	if err != nil {
+		panic("HARNESS-ERROR: NewConsensus: " + err.Error())
 	}
-	c.deadliner = dl
-	c.gaterFunc = productionGater()
-	c.mutable.instances = make(map[core.Duty]*instance.IO[Msg])
+	if c.mutable.instances == nil {
+		c.mutable.instances = make(map[core.Duty]*instance.IO[Msg])
+	}
 	return c, dl
+}
+
+// senderOf draws the transport-level sender of a frame: somebody outside the cluster, the member the message
+// names as its source, or another member (a relayed / replayed frame).
+func senderOf(rt *rapid.T, n int, m *pbv1.QBFTConsensusMsg) peer.ID {
+	peers := peersFor(n)
+	switch rapid.IntRange(0, 3).Draw(rt, "transportSender") {
+	case 0:
+		return "peer"
+	case 1, 2:
+		if idx := m.GetMsg().GetPeerIdx(); idx >= 0 && int(idx) < n {
+			return peers[idx].ID
+		}
+		return "peer"
+	default:
+		return peers[rapid.IntRange(0, n-1).Draw(rt, "senderMember")].ID
+	}
 }
 
 func bufState(c *Consensus) (instances int, buffered int) {
@@ -373,7 +415,7 @@ func TestC05Handle(t *testing.T) {
 
 		// positive control on a fresh component
 		c, _ := newConsensusForHandle(n)
-		_, _, err := c.handle(ctx, "peer", proto.Clone(b.msg).(*pbv1.QBFTConsensusMsg))
+		_, _, err := c.handle(ctx, senderOf(rt, n, b.msg), proto.Clone(b.msg).(*pbv1.QBFTConsensusMsg))
 		if err != nil {
 			rt.Fatalf("valid %s message rejected: %v", shape, err)
 		}
@@ -706,13 +748,14 @@ func TestC05Handle(t *testing.T) {
 			rt.Skip("altered bytes are another valid form of the same signed parts")
 		}
 		var herr error
+		from := senderOf(rt, n, m)
 		func() {
 			defer func() {
 				if r := recover(); r != nil {
 					rt.Fatalf("PANIC in handle for %s/%s/%s/%s: %v", shape, level, field, how, r)
 				}
 			}()
-			_, _, herr = c.handle(ctx, "peer", m)
+			_, _, herr = c.handle(ctx, from, m)
 		}()
 		inst, buf := bufState(c)
 		if totalityOnly {
